@@ -479,13 +479,21 @@ pub fn explore_bfs<F: Fn() -> Outcome + Sync>(cfg: &Config, f: F) -> Stats {
         total.nontrivial_observations += st.nontrivial_observations;
         total.states_capped |= st.states_capped;
         for (k, v) in st.violations {
-            total.violations.entry(k).or_insert(v);
+            match total.violations.get_mut(&k) {
+                Some(e) => e.count += v.count,
+                None => {
+                    total.violations.insert(k, v);
+                }
+            }
         }
         if total.samples.len() < cfg.samples.max(1) {
             total.samples.extend(st.samples);
         }
         total.machinery_errors.extend(st.machinery_errors);
-        if st.capped.is_some() || !total.violations.is_empty() || !total.machinery_errors.is_empty() {
+        // a violating step ends its own history (its state is not expanded);
+        // the other branches go on, so that one property's violation does not
+        // hide deeper violations of another
+        if st.capped.is_some() || total.violations.len() >= cfg.max_violation_keys || !total.machinery_errors.is_empty() {
             total.capped = st.capped.map(|c| format!("{} (breadth-first level {})", c, level));
             break;
         }
@@ -497,7 +505,7 @@ pub fn explore_bfs<F: Fn() -> Outcome + Sync>(cfg: &Config, f: F) -> Stats {
     total.bfs_states = Some(b.visited.len() as u64);
     total.bfs_levels = Some(level as u64);
     total.bfs_closed = Some(closed);
-    if !closed && total.capped.is_none() && total.violations.is_empty() {
+    if !closed && total.capped.is_none() {
         total.capped = Some(format!("breadth-first exploration stopped at level {}", level));
     }
     total.wall_s = start.elapsed().as_secs_f64();
